@@ -23,7 +23,11 @@ PROPS = {
                  rule="implementation-driven random gate-level histories on one Broadcast guarding a harness-owned integer "
                       "(HoldLock / TryHoldLock / HoldLockMaybeAsync callbacks running small programs of broadcast, getWaitCh, g++ and g:=v, "
                       "callbacks that stay inside the lock, callers that block on the channel they took, Wait with 4 predicate kinds incl. "
-                      "errors, nil arguments, pre-cancelled contexts, cancellations while parked / blocked / at the exit gate; directed: a Wait call parked "
+                      "errors, nil arguments, pre-cancelled contexts, cancellations while parked / blocked / at the exit gate; the contexts of the Wait calls are "
+                      "plain / ending like a deadline / cancelled with a cause in turn (harness/hctx; statuses distinguish context.Canceled, "
+                      "context.DeadlineExceeded, the cause, any other error); in 3 of 5 random histories 10-35% of the client callbacks PANIC after a prefix "
+                      "of their program (on all three entry points, also after having stayed inside the lock with others queueing; the caller recovers; "
+                      "never on HoldLockMaybeAsync's own goroutine); directed: a Wait call parked "
                       "at its HoldLock gate (also queueing behind a callback that holds the lock, also after having been woken) is cancelled and then "
                       "runs its section with the predicate returning error / true / false, new calls often use the current value as parameter) + corpus; "
                       "distinct = distinct event sequence; non-trivial = >= 8 events and some actor observed blocked"),
@@ -32,6 +36,8 @@ PROPS = {
         assumptions=[
             "the harness realises the eager schedule (woken waiters run to their next gate at once); the theorems cover every placement of wake-ups",
             "'both select cases ready' (context cancelled and channel closed before the select) is produced through the HoldLock exit gate; both orders end in context.Canceled in the code and in the model",
+            "a panic raised by a callback on the goroutine HoldLockMaybeAsync starts when the mutex is taken cannot be recovered by anybody (it kills the process, in the unchanged code too): such calls are not events of the model and are never generated",
+            "a mutex that stays locked although no callback is inside is detected by the harness (TryLock on the Broadcast's sync.Mutex field at quiescent points) before it lets an actor run into its section; such an actor is left at its gate and reported as blocked, which is what it would be (a sync.Mutex block is not durable under synctest)",
             "liveness stated as quiescence safety: in every reachable quiescent state no blocked Wait call's predicate holds, under the client discipline 'every callback that writes the guarded value broadcasts afterwards' (a boolean on the event list)",
         ],
         meta=dict(
@@ -41,7 +47,8 @@ PROPS = {
                  "open until the next, closing monotone); Wait returns nil only on a true predicate, passes the predicate's error through (both directions: returned "
              "10+e only after an evaluation that gave e, and an evaluation that gives e is returned in that very step whether or not the context has been "
              "cancelled meanwhile - monitor clause 8 reads this on the observed trace), returns Canceled "
-                 "only if cancelled; no-lost-wake-up invariant (closed c or g = sampled value or an undisciplined write happened) and its quiescence corollary; "
+                 "only if cancelled; a callback that panics ends its critical section there (prefix of its program performed, mutex released, caller gets the panic: "
+                 "c03_panicking_callback_releases_the_lock / _holder_), and all theorems quantify over such programs; no-lost-wake-up invariant (closed c or g = sampled value or an undisciplined write happened) and its quiescence corollary; "
                  "and the theorem that the property monitors report nothing on the model's own observations for every event list (c03_model_satisfies_monitors). "
                  "Model tied to the code by scheduled differential correspondence (synctest, one critical section at a time, extracted model must produce the same "
                  "status vectors, guarded value and channel open/closed flags); monitors evaluated on the implementation's observations.",
